@@ -155,6 +155,14 @@ class ExprMixin:
         raise Unsupported('dict display')
 
     def ev_Set(self, node):
+        items = [self.ev(e) for e in node.elts]
+        if items and all(i.t is TInt for i in items):
+            # a set display of numbers
+            t = TSet(TInt)
+            z = t.empty()
+            for i in items:
+                z = z3.Store(z, i.z, True)
+            return V(t, z)
         raise Unsupported('set display')
 
     # ------------------------------------------------------------------ names
@@ -744,6 +752,12 @@ class ExprMixin:
                 cb = concrete_int(y)
                 if cb is not None and cb >= 0:
                     return mk_int(x * (1 << cb))
+            if isinstance(op, ast.RShift):
+                cb = concrete_int(y)
+                if cb is not None and cb >= 0:
+                    # x >> k is floor(x / 2^k) for Python integers of either sign (z3 integer division by a positive
+                    # constant rounds towards minus infinity as well)
+                    return mk_int(x / (1 << cb))
             raise Unsupported('int operator %s' % type(op).__name__)
         if isinstance(op, ast.Add):
             if ta is TBytes and tb is TBytes:
